@@ -235,6 +235,16 @@ def run(ctx):
         fs = rng.sample(FIELDS, k)
         tree = gen_tree(rng, fs)
         st_cases.append({"mode": "state", "tree": tree, "lens": gen_lens(rng, tree, fs, want_valid=rng.random() < 0.8)})
+    # near misses: a valid assignment with exactly one list length changed by one (shapes that agree on some
+    # axes and differ on another are the ones a sloppy shape check lets through)
+    for i in range(300 if quick else 6000):
+        k = rng.choice([2, 3, 4, 4])
+        fs = rng.sample(FIELDS, k)
+        tree = gen_tree(rng, fs)
+        lens = gen_lens(rng, tree, fs, want_valid=True)
+        f = rng.choice(fs)
+        lens[f] = max(0, lens[f] + rng.choice([1, -1]))
+        st_cases.append({"mode": "state", "tree": tree, "lens": lens})
     # (b) end to end
     e2e = []
     for i in range(90 if quick else 3000):
